@@ -371,7 +371,7 @@ fn gen_delegation_method<'s>(
         _ => {
             let takes_self_by_value = matches!(
                 fn_sig.inputs.first(),
-                Some(syn::FnArg::Receiver(receiver)) if receiver.reference.is_none()
+                Some(syn::FnArg::Receiver(receiver)) if generics::receiver_is_by_value(receiver)
             );
             let call = if takes_self_by_value {
                 // a by-value receiver hands the application over to the delegate
